@@ -18,6 +18,15 @@ FLAGWORDS = [NOFLAGS] + list(range(8))
 ENTRY_RE = re.compile(r"^(write|error)")
 ENTRY_EXACT = ("overwrite", "clear")
 MARK = re.compile(r"m(\d+)\.")
+# shapes of the text a writing call is given: built around the marker m<t>. ... or without any marker
+MARK_SHAPES = {"plain": "m%d.", "nl": "m%d.\n", "mid": "a\nm%d.", "pad": " m%d. "}
+NOMARK_SHAPES = {"empty": "", "blank": "  ", "onlynl": "\n"}
+SHAPE_SETS = [["plain", "nl", "empty", "pad"], ["nl", "mid", "blank", "onlynl"]]
+ALL_SHAPES = ["plain", "nl", "mid", "pad", "empty", "blank", "onlynl"]
+
+
+def text_of(shape, t):
+    return MARK_SHAPES[shape] % t if shape in MARK_SHAPES else NOMARK_SHAPES[shape]
 
 
 # ------------------------------------------------------------------ reflection
@@ -219,19 +228,19 @@ class Subject(object):
             for x in g:
                 getattr(self.outs[x - 1], meth)(val)
 
-    def write(self, name, o, f, explicit_none=False):
+    def write(self, name, o, f, explicit_none=False, sh="plain"):
         self.t += 1
         t = self.t
         recv = self.receiver(o)
         ent = [e for e in entries(type(recv)) if e["name"] == name]
-        ev = dict(base_event("write"), role=self.role, name=name, o=o, f=f, t=t,
+        ev = dict(base_event("write"), role=self.role, name=name, o=o, f=f, t=t, sh=sh,
                   adr=list(range(1, len(self.outs) + 1)) if self.io is not None else [o])
         if not ent:
             ev["res"] = "NoSuchEntry"
             return ev
         ent = ent[0]
-        ev["hasText"] = ent["ntext"] > 0
-        args = ["m%d." % t] * ent["ntext"]
+        ev["hasText"] = ent["ntext"] > 0 and sh in MARK_SHAPES
+        args = [text_of(sh, t)] * ent["ntext"]
         kw = {}
         if ent["hasFlags"] and (f != NOFLAGS or explicit_none):
             kw["flags"] = None if f == NOFLAGS else f
@@ -265,7 +274,7 @@ def _construct(cls):
 
 def base_event(op):
     return {"op": op, "kind": "", "dec": False, "secs": [], "sts": [], "g": [], "q": False, "v": 0, "role": "", "name": "",
-            "o": 1, "adr": [], "f": NOFLAGS, "hasText": False, "t": 0, "res": "ok", "ids": [[], []], "any": [False, False]}
+            "o": 1, "adr": [], "f": NOFLAGS, "sh": "plain", "hasText": False, "t": 0, "res": "ok", "ids": [[], []], "any": [False, False]}
 
 
 def run_case(case):
@@ -294,7 +303,7 @@ def run_case(case):
                 s.set("verbosity", op["g"], op["v"])
                 evs.append(dict(base_event("verbosity"), g=list(op["g"]), v=op["v"]))
             elif k == "write":
-                evs.append(s.write(op["name"], op["o"], op["f"], op.get("explicit_none", False)))
+                evs.append(s.write(op["name"], op["o"], op["f"], op.get("explicit_none", False), op.get("sh", "plain")))
         return evs
     finally:
         if env_cols is None:
@@ -369,7 +378,7 @@ def ops_of(beh):
         elif k == "verbosity":
             ops.append({"op": "verbosity", "g": sorted(h["g"]), "v": h["v"]})
         elif k == "write":
-            ops.append({"op": "write", "name": h["name"], "o": h["o"], "f": h["f"]})
+            ops.append({"op": "write", "name": h["name"], "o": h["o"], "f": h["f"], "sh": h["sh"]})
     return ops
 
 
@@ -457,7 +466,7 @@ def run(ctx):
 
     r = ctx.model(SPEC, "MC_OutputGate", "MC_OutputGate_table.cfg", name="gate table", workers=8)
     table = ordered(T.emitted(r))
-    if len(table) < 3000:
+    if len(table) < 12000:
         raise T.MachineryError("MC_OutputGate table emitted only %d behaviours" % len(table))
     ctx.extra["table_behaviours"] = len(table)
     ctx.extra["table_replays"] = replay_behaviours(table, 3 if quick else None)
@@ -493,18 +502,23 @@ def run(ctx):
     for (kind, dec), rs in sorted(reals.items()):
         if kind == "sections":
             continue
-        for r in rs if not quick else spread(rs, 1 if kind in ("io", "iosec") else 2):
+        for nr, r in enumerate(rs if not quick else spread(rs, 1 if kind in ("io", "iosec") else 2)):
             s = Subject(r)
             ents = entries(s.cls)
             found.setdefault(s.cls.__name__, sorted(e["name"] for e in ents))
+            # the gate must not depend on the text: every configuration meets several text shapes (quick: one of two
+            # shape sets per realization, alternating; thorough: all of them)
+            shapes = SHAPE_SETS[nr % 2] if quick else ALL_SHAPES
             for ent in ents:
                 ops = []
                 for q in (False, True):
                     for v in LEVELS:
                         for f in (FLAGWORDS if ent["hasFlags"] else [NOFLAGS]):
-                            ops += [{"op": "new"}, {"op": "config", "q": q, "v": v},
-                                    {"op": "write", "name": ent["name"], "o": 1, "f": f, "explicit_none": (q + v) % 2 == 1}]
-                            ctx.count()
+                            ops += [{"op": "new"}, {"op": "config", "q": q, "v": v}]
+                            for sh in (shapes if ent["ntext"] else ["plain"]):
+                                ops.append({"op": "write", "name": ent["name"], "o": 1, "f": f, "sh": sh,
+                                            "explicit_none": (q + v) % 2 == 1})
+                                ctx.count()
                             if f > 0 and not q:
                                 ctx.nontriv(("tab", kind, dec, r.get("cls", ""), ent["name"], v, f))
                 case = {"real": r, "ops": ops}
@@ -586,7 +600,7 @@ def random_ops(rng, real, n):
             e = rng.choice(ents)
             f = rng.choice(FLAGWORDS) if e["hasFlags"] else NOFLAGS
             ops.append({"op": "write", "name": e["name"], "o": 1 if s.io is not None else rng.randint(1, nouts), "f": f,
-                        "explicit_none": rng.random() < 0.5})
+                        "sh": rng.choice(ALL_SHAPES), "explicit_none": rng.random() < 0.5})
     return ops
 
 
